@@ -197,6 +197,15 @@ Section Geom.
                            (tails l) n0 in
     total - naive.
 
+  (* Shape::enclosing_radius: .map(distance to the origin [+ radius]).fold(f64::MIN, f64::max);
+     fmin_ = f64::MIN.  Polygons use the START of each edge. *)
+  Definition poly_radius (fmin_ : T) (l : list seg) : T :=
+    fold_left (fun acc p => nmax acc (dist_o (sx1 p) (sy1 p))) l fmin_.
+  Definition mol_radius (fmin_ : T) (l : list disc) : T :=
+    fold_left (fun acc d => nmax acc (dist_o (dx_ d) (dy_ d) + dr d)) l fmin_.
+  Definition shape_radius (fmin_ : T) (s : shape) : T :=
+    match s with Poly l => poly_radius fmin_ l | Mol l => mol_radius fmin_ l end.
+
   (* ------------------------------------------------------------------ *)
   (* PackedState: check_intersection and score                           *)
 
